@@ -6,4 +6,5 @@ let () =
   | _ :: ("c05" | "c14") :: rest -> C05.run rest
   | _ :: "c13" :: rest -> C13.run rest
   | _ :: ("c04" | "c07") :: rest -> C04.run rest
+  | _ :: ("c01" | "c02") :: rest -> C01.run rest
   | _ -> prerr_endline "usage: model <property> ..."; exit 2
